@@ -279,11 +279,11 @@ Inv_C07_ExactlyOnce   == Done => ExactlyOnce(F, out)
 Inv_C07_SamePartition == Done => GroupsOf(out) = GroupsOf(NoEject(stream, pooling))
 Inv_C07_NoPremature   == Done => NoPremature(F, SelectSeq(out, LAMBDA m : ~m.ov), Cap)   \* overflow-rejected singletons are handed out at once by design
 (* both pooling methods give the same molecules when UMIs are compared exactly (radius 0); plain fragments:  *)
-(* unless a fragment matches an interior member only (MolAssignProps.InteriorMatch, finding D61)             *)
+(* unless pooling 0 lets a fragment join a molecule whose envelope it does not touch (InteriorJoin, D61)       *)
 Inv_C07_PoolingAgnostic ==
     (Done /\ HD = 0 /\ Radius = 0 /\ Cap = 0)
         => \/ GroupsOf(out) = GroupsOf(NoEject(stream, 1 - pooling))
-           \/ (Kind = "plain" /\ InteriorMatch(F, { i \in DOMAIN F : F[i].valid }))     \* evaluated only when they differ
+           \/ (Kind = "plain" /\ InteriorJoin(F, GroupsOf(NoEject(stream, 0))))     \* evaluated only when they differ
 
 InRegion == \A i \in DOMAIN F : 2 * (Span(F[i]) + (IF Kind = "nla" THEN 0 ELSE Radius)) <= CacheSize
 
